@@ -84,7 +84,7 @@ Proof.
   intros E. destruct (add_stmts_run_vals _ _ _ E) as (vs & Hr). exists vs. split; [exact Hr|].
   destruct (run_vals_output _ _ _ _ Hr) as (_ & Ho). cbn [prog_init p_now p_out] in Ho.
   assert (F : pcap_of p' = file_of (timeline 0 vs)).
-  { unfold pcap_of, file_of. rewrite Ho, app_nil_r, rev_involutive. reflexivity. }
+  { unfold pcap_of, file_of. rewrite frev_rev, Ho, app_nil_r, rev_involutive. reflexivity. }
   split; [exact F|]. intros Hok. rewrite F. apply pcap_read_file. exact Hok.
 Qed.
 
